@@ -10,5 +10,5 @@ cp "$root/coq/${g}_model.ml" "$root/coq/${g}_model.mli" "$b/"
 G=$(echo "$g" | cut -c1 | tr a-z A-Z)$(echo "$g" | cut -c2-)
 { echo "open ${G}_model"; cat "$root/ocaml/conv.ml" "$root/ocaml/drv_$g.ml"; } > "$b/main_$g.ml"
 cd "$b"
-ocamlfind ocamlopt -O3 -w -a -package str ${g}_model.mli ${g}_model.ml main_$g.ml -o "$root/ocaml/build/model_$g" 2>/dev/null \
- || ocamlfind ocamlopt -w -a ${g}_model.mli ${g}_model.ml main_$g.ml -o "$root/ocaml/build/model_$g"
+ocamlfind ocamlopt -O3 -w -a -package str -linkpkg ${g}_model.mli ${g}_model.ml main_$g.ml -o "$root/ocaml/build/model_$g" 2>/dev/null \
+ || ocamlfind ocamlopt -w -a -package str -linkpkg ${g}_model.mli ${g}_model.ml main_$g.ml -o "$root/ocaml/build/model_$g"
